@@ -17,3 +17,8 @@ void h_APPEND(void) { g_fresh = malloc(sizeof *g_fresh); SL* o = malloc(sizeof *
 void h_COPY(void) { g_self = malloc(sizeof *g_self); __CPROVER_assume(g_self); g_rc0 = g_self->f2; __CPROVER_assume(g_rc0 < UINT64_MAX); SL* r = COPY(g_self); CANARY("h_COPY"); }
 void h_ENQ(void) { g_this = malloc(sizeof *g_this); g_blk = malloc(sizeof *g_blk); __CPROVER_assume(g_this && g_blk && g_label < g_L); g_app_calls = 0; g_queued = 0;
   ENQ(g_this, g_blk, g_label, g_state); CANARY("h_ENQ"); }
+void DELETER(void* clo, void* node) { __CPROVER_assert(clo == g_del && node != 0 && ((SL*)node)->f2 == 1 && node != (void*)nS, "C16: only an exclusively owned node (refCount_ == 1) is handed to the deleter, never the first shared one");
+  if (node == (void*)nH) del_h++; if (node == (void*)nX) del_x++; }
+void h_UREL(void) { nH = malloc(sizeof *nH); nG0 = malloc(sizeof *nG0); nX = malloc(sizeof *nX); nG1 = malloc(sizeof *nG1); nS = malloc(sizeof *nS); g_del = malloc(8);
+  __CPROVER_assume(nH && nG0 && nX && nG1 && nS && g_del && USHAPE); g_hrc0 = nH->f2; g_src0 = nS->f2; __CPROVER_assume(g_hrc0 >= 1); del_h = 0; del_x = 0;
+  UREL(nH, g_del); CANARY("h_UREL"); }
